@@ -32,11 +32,16 @@ def claim_Limit (keys xc : List OrdKey) : List OrdKey := xc
 
 def claim_MergeJoin (t : JT) (lks rks xl xr : List OrdKey) : List OrdKey :=
   match t with
-    | .inner => xr
-    | .rightOuter => xr
-    | .leftOuter => xl
+    | .inner => rks
+    | .rightOuter => rks
+    | .leftOuter => lks
     | _ => []
 
 def claim_SortAgg (keys xc : List OrdKey) : List OrdKey := xc
+
+/-- ExprAnalysis::merge on the order property of two members of an e-class: `to.orderby = to.orderby[..common] with common = length of the common prefix of to.orderby and from.orderby` -/
+def mergeOrder : List OrdKey → List OrdKey → List OrdKey
+  | a :: as, b :: bs => if a = b then a :: mergeOrder as bs else []
+  | _, _ => []
 
 end RlModel.Gen
